@@ -283,7 +283,7 @@ class Executor:
         ev = {"op": kind, "out": "ok", "exc": "", "nopt": 0, "argsame": True,
               "p": "none", "bad": False, "fresh": "none", "key": "none",
               "val": "none", "keys": [], "haspre": False, "ret": "none",
-              "expect": "none", "retok": True, "rater": "none",
+              "expect": "none", "expect2": "none", "retok": True, "rater": "none",
               "streq": False, "badval": False, "via": "fresh",
               "kwvals": {}, "orphan": False, "rxhi": "none",
               "binfail": False, "details": False, "contnan": False, "tree": False, "pseudo": False,
@@ -598,6 +598,14 @@ class Executor:
                 settings=self.stored_settings(),
                 applied="preprocessing" in self.idnt.fit_properties)
             ev["expect"] = exp if isinstance(exp, str) else "raise"
+            # (the statement allows -1 or 0 without a fit and does not count
+            # a changed setting among the things that end a cached rating:
+            # the value of the same curve without the stored settings is
+            # acceptable, too -- the value of OTHER DATA is not)
+            exp2 = self.oracle.rate_unfitted(
+                self.cid, self.stored_pipeline(), rargs, settings={},
+                applied="preprocessing" in self.idnt.fit_properties)
+            ev["expect2"] = exp2 if isinstance(exp2, str) else "raise"
         # what the rating has to be combined from: the binary exclusion
         # criteria and the continuous features of THIS object (public
         # feature API, same feature selection as the rater)
